@@ -18,6 +18,14 @@ pub fn guarded<F: FnOnce() -> Value>(f: F) -> Value {
     }
 }
 
+/// Like `guarded` for a fallible step: a panic becomes an `Err` naming it.
+pub fn guarded_res<T, F: FnOnce() -> Result<T, String>>(f: F) -> Result<T, String> {
+    match catch_unwind(AssertUnwindSafe(f)) {
+        Ok(r) => r,
+        Err(_) => Err("panic".into())
+    }
+}
+
 fn res<T>(r: Result<T, Error>, d: &Decoder, f: impl FnOnce(T) -> Value) -> Value {
     match r {
         Ok(v) => ok(f(v), d.position()),
@@ -309,6 +317,10 @@ pub fn run_op(fam: &str, name: &str, input: &Value) -> Value {
             "display" => crate::disp::fmt(&get_bytes(&input["buf"])),
             #[cfg(feature = "std")]
             "typed" => crate::types::decode_named(name, &get_bytes(&input["bytes"])).unwrap_or(json!({"p":"unsupported"})),
+            #[cfg(feature = "full")]
+            "serde" => crate::sfam::sdecode_named(name, &get_bytes(&input["bytes"])).unwrap_or(json!({"p":"unsupported"})),
+            #[cfg(feature = "full")]
+            "both" => crate::sbridge::both_named(name, &get_bytes(&input["bytes"])).unwrap_or(json!({"p":"unsupported"})),
             #[cfg(feature = "std")]
             "sink" => crate::sinks::raw(name, input),
             #[cfg(feature = "io")]
